@@ -145,7 +145,11 @@ func Expected(n *gen.Node) Node {
 			names = append(names, strings.TrimSpace(nm))
 		}
 		out.Value = n.Lit
-		if len(names) == 1 {
+		if len(names) == 1 && n.Rule("or") != nil {
+			// a written or rule next to the shortcut: the synthesised rule reads type "mixed"; it is
+			// still a rule nobody wrote
+			out.Rules = append(out.Rules, Rule{Name: "type", TokenType: "string", Value: "mixed", Source: generated})
+		} else if len(names) == 1 {
 			out.Rules = append(out.Rules, Rule{Name: "type", TokenType: "reference", Value: names[0], Source: generated})
 		} else {
 			o := Rule{Name: "or", TokenType: "array", Source: generated}
